@@ -277,7 +277,7 @@ func (p *parser) check() error {
 
 	last := len(p.tokens) - 1
 	if prefixNotation &&
-		(p.tokens[0].typ != lParen || p.tokens[last].typ != rParen) {
+		(last < 0 || p.tokens[0].typ != lParen || p.tokens[last].typ != rParen) {
 		return p.parenUnmatchedErr(0)
 	}
 	// check parentheses
@@ -434,6 +434,9 @@ func (p *parser) errWithPos(err error, idx int) error {
 
 func (p *parser) pos(i int) string {
 	A := []rune(p.source)
+	if len(A) == 0 {
+		return ""
+	}
 
 	if i < 0 || i >= len(A) {
 		i = 0
